@@ -757,7 +757,7 @@ def _p2_class(text, cursor, bad):
         # between the backslash and the newline is placed two characters too far to the right
         if analyse(text, cursor + 1) is None and analyse(text, cursor - 1) is None:
             return "cursor-inside-line-continuation"
-    if clause in ("command-prefix", "command-suffix") and LC not in text:
+    if clause in ("command-prefix", "command-suffix"):
         # cursor strictly inside a three-character closing quote: handle_command_arg's "inside the
         # closing quote" branch tests `>= len(opening + value + closing)` and is never taken, so the
         # cursor is reported as inside the string, before a complete closing quote.  Repair transform:
@@ -1072,6 +1072,8 @@ def replay(rec):
     case = rec["case"]
     tables.ensure_tables()
     if case.get("part") == "analyser":
+        global _FUSE_SHORT
+        _FUSE_SHORT = _FUSE_LONG  # confirm a hang with the long fuse
         _init_p2()
         bad = analyse(case["text"], case["cursor"])
         print("text    :", repr(case["text"]), "cursor:", case["cursor"])
